@@ -108,7 +108,7 @@ deriving Repr, DecidableEq
 `tags` (a list in memory) is listed with its in-memory default. -/
 def metaTable : Rec :=
   [("AudioFile", .str ""), ("SongPreviewTime", .int 0), ("BackgroundFile", .str ""), ("BannerFile", .str ""),
-   ("Genre", .str ""), ("BPMDoesNotAffectScrollVelocity", .bool true), ("InitialScrollVelocity", .str ""),
+   ("Genre", .str ""), ("BPMDoesNotAffectScrollVelocity", .bool true), ("InitialScrollVelocity", .flt 1),
    ("HasScratchKey", .bool true), ("MapId", .int (-1)), ("MapSetId", .int (-1)), ("Mode", .str "Keys4"),
    ("Title", .str ""), ("Artist", .str ""), ("Source", .str ""), ("Tags", .strs []), ("Creator", .str ""),
    ("DifficultyName", .str ""), ("Description", .str ""), ("EditorLayers", .strs []),
